@@ -296,6 +296,10 @@ RULES = [
 ]
 
 
+from . import shared
+RULES = RULES + shared.bundle('C16', ['carry', 'gate', 'restart', 'driver', 'values', 'stride', 'norm'], ['modelinfo', 'core', 'generate'])
+
+
 def run(tier="quick", replay=None):
     return run_check(
         "C16", RULES, tier=tier, replay=replay,
